@@ -119,10 +119,8 @@ def main(tier, seed, replay=None):
         # user rules for pairs that also have a built-in guess (homonuclear sp2 / aromatic, bonds to H_, sp3 and halogens): the user's rule wins
         OVERRIDE = [({"C_2"}, 1), ({"C_R"}, 1), ({"C_R", "O_3"}, 1.5), ({"N_R"}, 2), ({"H_", "C_R"}, 1.25), ({"Cl", "C_R"}, 1.5)]
         pairs_all = list(itertools.product(types, types))
-        if tier == "quick":
-            pairs = rng.sample(pairs_all, 1500)
-        else:
-            pairs = pairs_all
+        # thorough = about ten times the quick sample (everything x everything would be some 10^5 interval goals)
+        pairs = rng.sample(pairs_all, 1500 if tier == "quick" else min(len(pairs_all), 9000))
         special = [("C_R", "C_R"), ("C_2", "C_2"), ("N_R", "N_R"), ("O_2", "O_2"), ("O_R", "O_R"), ("C_R", "N_R"), ("C_3", "C_R"), ("H_", "C_R"), ("N_1", "N_1"),
                    ("N_1", "N_2"), ("N_2", "N_1"), ("C_2", "N_2"), ("Zr3+4", "O_2"), ("Cl", "C_R"), ("I_", "I_"), ("N_R", "C_R")]
         pairs = special + pairs
@@ -157,7 +155,7 @@ def main(tier, seed, replay=None):
             run.cov["evaluations"] += 1
         run.count("angle-styles", len(types))
         ends = ["H_", "C_2", "O_3", "C_R"]
-        centre = pairs_all if tier == "thorough" else (special + rng.sample(pairs_all, 1000))
+        centre = special + rng.sample(pairs_all, 1000 if tier == "quick" else min(len(pairs_all), 5000))
         tors_obs = {}
         for a2, a3 in centre:
             for a1 in ends[:2] if tier == "quick" else ends:
@@ -196,7 +194,7 @@ def main(tier, seed, replay=None):
         # ---------------------------------------------------------------- magnitudes: interval enclosures
         goals = []
         meta = []
-        bond_pairs = special + (rng.sample(pairs_all, 180) if tier == "quick" else pairs_all)
+        bond_pairs = special + rng.sample(pairs_all, 180 if tier == "quick" else min(len(pairs_all), 1500))
         for a1, a2 in bond_pairs:
             for bo in (None, 1, 1.5, 2):
                 with o, e:
@@ -234,12 +232,12 @@ def main(tier, seed, replay=None):
             thetas.setdefault(UFF4MOF[t][1], []).append(t)
         centres = []
         for th, ts in sorted(thetas.items()):
-            centres += (ts if tier == "thorough" else rng.sample(ts, min(len(ts), 2)))
+            centres += rng.sample(ts, min(len(ts), 2 if tier == "quick" else 8))
         centres = list(dict.fromkeys(centres + ["H_b", "C_R", "O_3", "N_3", "C_1", "Zr3+4"]))
         ngoal_a = 0
         for a2 in centres:
             triples = [(a1, a3) for a1 in end_pool for a3 in end_pool]
-            for a1, a3 in (triples if tier == "thorough" else rng.sample(triples, 3)):
+            for a1, a3 in rng.sample(triples, min(len(triples), 3 if tier == "quick" else 8)):
                 with o, e:
                     p = ru.angle_params(a1, a2, a3)
                     pr = ru.angle_params(a3, a2, a1)
@@ -277,7 +275,7 @@ def main(tier, seed, replay=None):
         run.count("angle-triples", ngoal_a)
         # torsions: one magnitude goal per observed harmonic case (sampled)
         harm = [(kq, v) for kq, v in tors_obs.items() if v[0] == 0]
-        for (a1, a2, a3, a4), (code, p) in (harm if tier == "thorough" else rng.sample(harm, min(len(harm), 150))):
+        for (a1, a2, a3, a4), (code, p) in rng.sample(harm, min(len(harm), 150 if tier == "quick" else 2000)):
             m = rng.choice([1, 2, 3, 9])
             with o, e:
                 pm = ru.dihedral_params(a1, a2, a3, a4, num_dihedrals_about_bond=m)
@@ -290,7 +288,7 @@ def main(tier, seed, replay=None):
             meta.append(("torsion", a1, a2, a3, a4, m))
             run.cov["evaluations"] += 1
             run.nontrivial(("torsion", a1, a2, a3, a4, m))
-        run.count("torsion-goals", len(harm) if tier == "thorough" else min(len(harm), 150))
+        run.count("torsion-goals", min(len(harm), 150 if tier == "quick" else 2000))
         # torsion magnitude goals need the case to reduce: add the unfolding of tors_force / tors_case by computation
         failed = run_goal_files(run, "c18", goals, 60 if tier == "quick" else 200)
         for fi, first, text in failed:
@@ -308,11 +306,11 @@ def main(tier, seed, replay=None):
     return run.finish(
         rule="discrete outcomes (bond-order guess with and without user rules, angle potential style / b / n for all 221 centre types, torsion case / d / n / "
              "undefined / unsupported for centre pairs x end classes) compared exactly with the computable case analysis of the model (quick: sampled pairs; "
-             "thorough: all 48 841 ordered pairs); magnitudes (bond length and force constant for bond orders {guessed, 1, 1.5, 2}, pair sigma/epsilon, angle "
+             "thorough: 9 000 of the 48 841 ordered pairs); magnitudes (bond length and force constant for bond orders {guessed, 1, 1.5, 2}, pair sigma/epsilon, angle "
              "force constant and fourier coefficients stratified over theta0 classes x extreme/typical end radii, torsion barriers for several multiplicities) "
              "enclosed within 1e-11 relative by kernel-checked interval arithmetic against the real-valued formulas on the regenerated table; symmetry under "
              "reversal, finiteness and positivity also checked on the implementation's values.  Non-trivial = not all types identical.",
-        exhaustive=(tier == "thorough"),
+        exhaustive=False,
         assumptions=["the code's floating-point evaluation is compared with the real-valued formula within 1e-11 relative (its own rounding is ~1e-15)",
                      "math.log / sqrt / cos / sin / pi of the platform are trusted to be accurate to 1e-12"],
         trusted_extra=["tools/gen_tables.py (fail-closed ast translator)", "coq-interval (interval with i_prec 64: software floats over Bignums / Uint63 primitives)"])
